@@ -93,7 +93,8 @@ theorem newDT_positions : ∀ (dt : DataType) (path : String) (nullable : Bool) 
       simp only [positions, segsDT, positionsAt_cons, positionsAt_under, ih, leafLabel]
       simp [render]
   | .map (.mk _ (.struct (.cons _ (.cons _ (.cons _ _)))) _ _) _, path, nullable, md, b, h => by simp [newDT, fail] at h
-  | .map (.mk ename (.struct (.cons kf (.cons vf .nil))) en emd) sorted, path, nullable, md, b, h => by
+  | .map (.mk _ (.struct (.cons _ (.cons _ .nil))) true _) _, path, nullable, md, b, h => by simp [newDT, ctx_ok, fail] at h
+  | .map (.mk ename (.struct (.cons kf (.cons vf .nil))) false emd) sorted, path, nullable, md, b, h => by
     simp only [newDT] at h
     obtain ⟨kb, h1, h⟩ := (bind_ok _ _ _).1 h
     obtain ⟨vb, h2, h⟩ := (bind_ok _ _ _).1 h
@@ -157,7 +158,8 @@ theorem newDT_positions : ∀ (dt : DataType) (path : String) (nullable : Bool) 
     have e2 : path ++ "." ++ "value" = path ++ ".value" := by rw [String.append_assoc]; rfl
     simp only [positions, segsDT, positionsAt_cons, positionsAt_append, positionsAt_under, ih1, ih2]
     simp [render, e1, e2]
-  | .union fs mode, path, nullable, md, b, h => by
+  | .union _ .sparse, path, nullable, md, b, h => by simp [newDT, ctx_ok, fail] at h
+  | .union fs .dense, path, nullable, md, b, h => by
     simp only [newDT] at h
     obtain ⟨bl, h1, h⟩ := (bind_ok _ _ _).1 h
     cases h
